@@ -236,16 +236,22 @@ def check_script(ctx, case):
     items = _decode_items(case)
     minimal = wire.script_build(items)
     raw = minimal
-    if case.get('enc'):
+    if case.get('enc') or case.get('enc0'):
         # the same items with explicitly chosen push encodings (OP_PUSHDATA1/2/4 where a shorter form exists):
         # a decoder must read every form the protocol defines
         raw = b''
         k = 0
+        enc_list = case.get('enc') or [0]
         for it in items:
             if isinstance(it, int):
-                raw += bytes([it])
+                if it == 0 and case.get('enc0'):
+                    # the empty item pushed with a zero-length OP_PUSHDATA1/2/4 (4c00, 4d0000, 4e00000000)
+                    w0 = case['enc0']
+                    raw += bytes([{1: 0x4c, 2: 0x4d, 4: 0x4e}[w0]]) + bytes(w0)
+                else:
+                    raw += bytes([it])
                 continue
-            e = case['enc'][k % len(case['enc'])]
+            e = enc_list[k % len(enc_list)]
             k += 1
             width = {1: 1, 2: 2, 4: 4}.get(e)
             if width and len(it) < 256 ** width and len(it) > 0:
@@ -313,12 +319,20 @@ def check_script(ctx, case):
             # a script that is ONE push of unclassified length: the library shows the tokens of the pushed bytes up to
             # the point where they stop being a well-formed script
             toks = []
+            d0 = bytes(expected[0])
             try:
-                for op_, d_ in wire.script_iter(expected[0]):
+                for op_, d_ in wire.script_iter(d0):
                     toks.append(op_ if d_ is None else bytes(d_))
             except ValueError:
                 pass
-            if norm(cmds) == norm(toks):
+            alts = [toks]
+            # (when the bytes end inside the size field of an OP_PUSHDATA1/2/4 the library shows that opcode as well)
+            for width, opc in ((1, 0x4c), (2, 0x4d), (4, 0x4e)):
+                for miss in range(1, width + 1):
+                    cut = width - miss
+                    if len(d0) > cut and d0[len(d0) - cut - 1] == opc:
+                        alts.append(toks + [opc])
+            if any(norm(cmds) == norm(a_) for a_ in alts):
                 return 'C18-script-nested-parse-of-data'
         return None
 
@@ -397,6 +411,7 @@ def script_strategy(ctx):
         'entry': st.sampled_from(['parse', 'parse_bytes', 'parse_hex', 'parse_bytesio', 'parse_str_hex']),
         'strict': st.booleans(),
         'enc': st.one_of(st.none(), st.none(), st.lists(st.sampled_from([0, 1, 2, 4]), min_size=1, max_size=4)),
+        'enc0': st.sampled_from([None, None, None, 1, 2, 4]),
     })
 
 
